@@ -181,5 +181,11 @@ def check(run: Run):
     ]
 
 
+def replay_case(detail):
+    from graph import replay_detail
+
+    return replay_detail(KindAdapter(detail["from"]["kind"]), detail)
+
+
 if __name__ == "__main__":
     sys.exit(main_wrapper(check, "C10"))
